@@ -566,6 +566,35 @@ def _(f, a):
     return (str(f), repr(f), f.to_html()[:0], f.to_csv is not None)
 
 
+
+def _via(c, a):
+    """Element-wise string / datetime helper interfaces (results are new containers of the same labels)."""
+    w = a['which']
+    if w == 'upper':
+        return c.via_str.upper()
+    if w == 'len':
+        return c.via_str.len()
+    if w == 'startswith':
+        return c.via_str.startswith('a')
+    if w == 'zfill':
+        return c.via_str.zfill(4)
+    if w == 'year':
+        return c.via_dt.year
+    if w == 'weekday':
+        return c.via_dt.weekday()
+    if w == 'isoformat':
+        return c.via_dt.isoformat()
+    return c.via_dt.strftime('%Y/%m')
+
+
+_VIA = A(which=st.sampled_from(['upper', 'len', 'startswith', 'zfill', 'year', 'weekday', 'isoformat', 'strftime']))
+
+
+@op('via_str_dt', _VIA)
+def _(f, a):
+    return _via(f, a)
+
+
 def frame_op_strategy(only=None):
     names = [o[0] for o in FRAME_OPS if only is None or o[0] in only]
     table = {o[0]: o for o in FRAME_OPS}
@@ -765,6 +794,14 @@ def _(s, a):
     return (str(s), repr(s))
 
 
+
+
+
+@sop('via_str_dt', _VIA)
+def _(s, a):
+    return _via(s, a)
+
+
 SERIES_OP_TABLE = {o[0]: o for o in SERIES_OPS}
 
 
@@ -912,6 +949,14 @@ def _(ix, a):
 @iop('display')
 def _(ix, a):
     return (str(ix), repr(ix), ix.to_pandas is not None)
+
+
+
+
+
+@iop('via_str_dt', _VIA)
+def _(ix, a):
+    return _via(ix, a)
 
 
 INDEX_OP_TABLE = {o[0]: o for o in INDEX_OPS}
